@@ -11,7 +11,9 @@ prose, "[up, right, down, left]" in the Action section); neither is used as an o
 direction vectors below are the ones for which "mask entry True <=> the move changes the position"
 holds (DESIGN 2.7), i.e. 0: row-1, 1: column-1, 2: row+1, 3: column+1.  What C04 asserts is the
 documented *meaning* of the mask - "the way is not blocked by a wall" - for those vectors.
-Eaten pellets / power-ups are blanked to the row (0, 0) (a wall cell, never a real pellet).
+"Pellets are removed from the map after being collected": how a removed row is encoded is not documented
+(the code blanks it to (0, 0), a wall cell), so a row counts as a live pellet iff it lies on a free cell of
+the map - true for real pellets, false for any sentinel that is a wall cell or outside the grid.
 """
 from __future__ import annotations
 
@@ -77,10 +79,19 @@ class M(Model):
     def _usable(self, s):
         return np.asarray(s.grid).shape == (self.X, self.Y) and self._inside(*self._player(s))
 
-    @staticmethod
-    def _live(rows):
-        rows = np.asarray(rows).reshape(-1, 2)
-        return rows[(rows != 0).any(axis=1)]
+    def _live_mask(self, s, rows):
+        """rows (column, row) that are still on the map = on a free in-grid cell (sentinel-agnostic)."""
+        rows = np.asarray(rows).astype(np.int64).reshape(-1, 2)
+        grid = np.asarray(s.grid)
+        ok = (rows[:, 1] >= 0) & (rows[:, 1] < self.X) & (rows[:, 0] >= 0) & (rows[:, 0] < self.Y)
+        out = np.zeros(len(rows), bool)
+        if grid.shape == (self.X, self.Y):
+            out[ok] = grid[rows[ok, 1], rows[ok, 0]] == 1
+        return out
+
+    def _live(self, s, rows):
+        rows = np.asarray(rows).astype(np.int64).reshape(-1, 2)
+        return rows[self._live_mask(s, rows)]
 
     # ------------------------------------------------------------------ C04 / C05
     def legal(self, s):
@@ -126,19 +137,22 @@ class M(Model):
             if foreign.any():
                 out.append((f"{name}: something was eaten away from the stationary player",
                             f"player (col,row)={me.tolist()} rows {p[foreign][:3].tolist()} -> {q[foreign][:3].tolist()}"))
-            if (diff & (q != 0).any(axis=1)).any():
-                out.append((f"{name}: a row was rewritten instead of blanked", f"{q[diff][:3].tolist()}"))
-        if int(s.pellets) - int(s2.pellets) != eaten["pellet_locations"]:
-            out.append(("pellet counter moved differently from the pellet table",
-                        f"pellets {int(s.pellets)} -> {int(s2.pellets)}, rows blanked {eaten['pellet_locations']}"))
-        # reward = 10 per pellet + 50 per power-up under the player (+200 per frightened ghost that
-        # ran into it: world dynamics, not the ignored move)
-        rest = float(ts2.reward) - 10.0 * eaten["pellet_locations"] - 50.0 * eaten["power_up_locations"]
-        if not any(abs(rest - 200.0 * k) < 1e-4 for k in range(5)):
-            out.append(("reward of an ignored move is not explained by the cell under the player",
-                        f"reward={float(ts2.reward)} pellets eaten={eaten['pellet_locations']} power-ups eaten={eaten['power_up_locations']}"))
-        if int(s2.step_count) != int(s.step_count) + 1:
-            out.append(("step_count not incremented", f"{int(s.step_count)} -> {int(s2.step_count)}"))
+            # a changed row must have left the map (how it is blanked is not documented)
+            if (diff & self._live_mask(s2, q)).any():
+                out.append((f"{name}: a row was rewritten to another live cell instead of removed", f"{q[diff][:3].tolist()}"))
+        # nothing eaten -> the pellet counter must not move ("tracking the number of pellets"); its exact
+        # bookkeeping when something *is* eaten under the stationary player is C07's consistency check
+        if eaten["pellet_locations"] == 0 and int(s.pellets) != int(s2.pellets):
+            out.append(("pellet counter moved although no pellet left the map",
+                        f"pellets {int(s.pellets)} -> {int(s2.pellets)}"))
+        # reward = 10 per pellet under the player (+200 per frightened ghost that ran into it: world dynamics,
+        # not the ignored move).  With a power-up under the stationary player the docs (20) and the code
+        # disagree on the value: not judged then.  The step counter is not part of the documented effect.
+        if eaten["power_up_locations"] == 0:
+            rest = float(ts2.reward) - 10.0 * eaten["pellet_locations"]
+            if not any(abs(rest - 200.0 * k) < 1e-4 for k in range(5)):
+                out.append(("reward of an ignored move is not explained by the cell under the player",
+                            f"reward={float(ts2.reward)} pellets eaten={eaten['pellet_locations']}"))
         return out
 
     # ------------------------------------------------------------------ C07
@@ -160,20 +174,14 @@ class M(Model):
                 out.append(("ghost outside the grid", f"ghost {i} (col,row)=({gc},{gr})"))
             elif grid[gr, gc] != 1:
                 out.append(("ghost inside a wall", f"ghost {i} (col,row)=({gc},{gr})"))
-        live = self._live(s.pellet_locations)
+        live = self._live(s, s.pellet_locations)  # rows on free cells of the map (sentinel-agnostic)
         if int(s.pellets) != len(live):
             out.append(("pellet counter != number of live pellet rows", f"pellets={int(s.pellets)} live rows={len(live)}"))
-        for cr in live:
-            if not self._inside(cr[1], cr[0]) or grid[cr[1], cr[0]] != 1:
-                out.append(("live pellet on a wall or outside the grid", f"(col,row)={cr.tolist()}"))
-                break
         if len(live) and len(np.unique(live, axis=0)) != len(live):
             out.append(("duplicate live pellet rows", ""))
         if prev is None:
             if int(s.score) != 0:
                 out.append(("initial score != 0", str(int(s.score))))
-            if int(s.step_count) != 0:
-                out.append(("initial step_count != 0", str(int(s.step_count))))
         else:
             if not np.array_equal(np.asarray(prev.grid), grid):
                 out.append(("maze changed", ""))
@@ -181,15 +189,8 @@ class M(Model):
             if ts is not None and abs((int(s.score) - int(prev.score)) - float(ts.reward)) > 1e-4:
                 out.append(("score is not the running sum of rewards",
                             f"score {int(prev.score)} -> {int(s.score)} reward {float(ts.reward)}"))
-            if int(s.step_count) != int(prev.step_count) + 1:
-                out.append(("step_count not incremented", f"{int(prev.step_count)} -> {int(s.step_count)}"))
-            if int(s.pellets) > int(prev.pellets) or int(prev.pellets) - int(s.pellets) > 1:
-                out.append(("pellet counter did not drop by 0 or 1", f"{int(prev.pellets)} -> {int(s.pellets)}"))
-            pr, pc = self._player(prev)
-            dr = min(abs(pr - r), self.X - abs(pr - r))
-            dc = min(abs(pc - c), self.Y - abs(pc - c))
-            if dr + dc > 1:
-                out.append(("player moved more than one cell", f"({pr},{pc}) -> ({r},{c})"))
+            # (step_count, "counter drops by at most 1" and "one cell per step" are transition rules, not
+            # physical consistency: not asserted under C07)
             # the pellet on the cell the player now occupies has been collected
             if self._inside(r, c) and len(live) and (live == np.array([c, r])).all(axis=1).any():
                 out.append(("player stands on a live pellet after the step", f"(row,col)=({r},{c})"))
@@ -230,9 +231,7 @@ class M(Model):
         bad = [cr.tolist() for cr in pu if not self._inside(cr[1], cr[0]) or grid[cr[1], cr[0]] != 1]
         if bad:
             out.append(("power-up on a wall or outside the grid", f"(col,row) {bad[:3]}"))
-        if int(s0.step_count) != 0 or int(s0.score) != 0 or int(s0.frightened_state_time) != 0:
-            out.append(("initial counters are not zero",
-                        f"step_count={int(s0.step_count)} score={int(s0.score)} frightened={int(s0.frightened_state_time)}"))
+        # (step_count / score / frightened_state_time are not invariants of the generated map: not asserted here)
         if bool(s0.dead):
             out.append(("player starts dead", ""))
         return out
